@@ -5,7 +5,7 @@ import re._parser as sre_parse
 
 from sa import astq
 from sa.astq import norm_text
-from sa.idioms import guarded, reach_under
+from sa.idioms import guarded, reach_under, nodes_within
 from sa.raises import Escapes
 from sa.project import dotted, walk_local, AnalysisError
 
@@ -221,16 +221,39 @@ def r3(run, ctx):
               "a pid given as a string never equals p.pid: 'kill pid=N' silently kills nothing")
     se = ctx.fn('circus.commands.sendsignal:Signal.execute')
     cfg = ctx.cfg(se)
-    pids = [a for a in walk_local(se.node) if isinstance(a, ast.Assign) and any(
-        isinstance(t, ast.Name) and t.id == 'pids' for t in a.targets)]
-    ok = len(pids) == 1 and isinstance(pids[0].value, ast.IfExp) and \
-        norm_text(pids[0].value.test) == "'pid' in props" and \
-        norm_text(pids[0].value.body) == "[props['pid']]" and \
-        norm_text(pids[0].value.orelse) == 'watcher.get_active_pids()'
-    run.check('R3', ok, 'signal addresses the given pid alone, else all active pids of the '
-              'watcher', se, pids[0] if pids else se.node,
-              'the set of addressed pids is %s' % (norm_text(pids[0].value) if pids else '?'))
-    loop = [n for n in ast.walk(se.node) if isinstance(n, ast.For) and norm_text(n.iter) == 'pids']
+    # every way the addressed set can be built, with the request form that selects it
+    from sa.dataflow import reaching_defs
+    from sa.idioms import member_test
+    rd = reaching_defs(ctx, se)
+    loop = [n for n in cfg.nodes if n.kind == 'iter' and any(
+        astq.call_last(c).startswith('send_signal') for b in nodes_within(cfg, n.ast.body)
+        for c in b.calls())]
+    has_pid = lambda v: (lambda e: (lambda r: None if r is None else (r == v))(
+        member_test(e, "'pid'", 'props')))
+    seen = set()
+    for h in loop[:1]:
+        for alt in rd.expand(h, h.ast.iter):
+            t = alt.text()
+            site = alt.used[0].ast if alt.used else h.ast
+            if t == "[props['pid']]":
+                seen.add('one')
+                run.check('R3', not rd.feasible(alt, has_pid(False)), 'the given pid alone is '
+                          'addressed only when the request names one', se, site)
+            elif isinstance(alt.expr, ast.Call) and astq.call_last(alt.expr) == 'get_active_pids' \
+                    and not alt.expr.args and norm_text(alt.expr.func.value) in (
+                        'watcher', "self._get_watcher(arbiter, props.get('name'))"):
+                seen.add('all')
+                run.check('R3', not rd.feasible(alt, has_pid(True)), 'all active pids are '
+                          'addressed only when the request names none', se, site,
+                          'a request naming a pid can address every active worker',
+                          construct='all pids although one was named')
+            else:
+                run.fail('R3', se, site, 'the set of addressed pids is %s' % t[:120],
+                         construct='addressed pids shape')
+    run.check('R3', seen == {'one', 'all'}, 'signal addresses the given pid alone, else all active '
+              'pids of the watcher', se, loop[0].ast if loop else se.node,
+              'the set of addressed pids is not {given pid | all active pids}: %s' % sorted(seen))
+    loop = [n.ast for n in loop]
     if run.need('R3', loop, 'loop over the addressed pids', se):
         def truth(name, v):
             return lambda x: v if norm_text(x) == name else None
